@@ -5,12 +5,14 @@ import "context"
 // C01 — an acknowledged produce is durable in S3 (concurrent producers, any upload failure,
 // and after a restart).
 func VsymC01_Durable() {
-	// shapes: {producers, upload failures, preemption bound (0 = unbounded), 1 = preempt at S3 calls and blocking only}
-	shape := [][4]int{{2, 1, 2, 0}, {3, 0, 1, 1}, {2, 2, 3, 0}, {2, 1, 0, 0}, {3, 1, 1, 1}, {3, 0, 2, 1}}[vsym_Param("shape")]
+	// shapes: {producers, upload failures, preemption bound (0 = unbounded), 1 = producers preempted
+	// at S3 calls and blocking only, delay bound (0 = unbounded)}
+	shape := [][5]int{{2, 1, 2, 0, 0}, {3, 0, 0, 1, 2}, {3, 1, 0, 1, 2}, {2, 2, 3, 0, 0}, {2, 0, 0, 0, 4}, {3, 1, 0, 0, 3}}[vsym_Param("shape")]
 	w := vsymNewConcWorld(true)
 	w.s3EventsOnly = shape[3] == 1
 	w.s3.budget = shape[1]
 	vsym_PreemptionBound(shape[2])
+	vsym_DelayBound(shape[4])
 	vsym_ExploreEvents() // preemption at S3 calls, publish callbacks and producer steps, and when blocked
 	for i := 0; i < shape[0]; i++ {
 		vsym_Go(w.producer(i, "C01"))
